@@ -131,6 +131,13 @@ def cases(ctx):
                     if mine():
                         yield {"kind": "parity", "bases": bases, "state": [kind, tag],
                                "vec": [[float(z.real), float(z.imag)] for z in vec]}
+                # ... and with qubits whose virtual ids are NOT their positions in the list: a bystander allocated first, the list
+                # in reverse allocation order, a first qubit that was given back (the ancilla then takes id 0)
+                lay = rng.choice(["bystander", "reversed", "gap"])
+                kind, tag, vec = sts[rng.randrange(len(sts))]
+                if mine():
+                    yield {"kind": "parity", "bases": bases, "state": [kind, tag], "layout": lay,
+                           "vec": [[float(z.real), float(z.imag)] for z in vec]}
 
 
 def _session(ctx, case):
@@ -477,7 +484,15 @@ def _parity(ctx, case):
     for branch in (0, 1):
         p = Pipe(script=[branch], max_qubits=5)
         with p.conn as conn:
+            lay = case.get("layout")
+            extra = [Qubit(conn)] if lay in ("bystander", "gap") else []
             qs = [Qubit(conn) for _ in range(n)]
+            if lay == "reversed":
+                qs = qs[::-1]
+            if lay == "gap":
+                extra.pop().free()
+            if lay:
+                ctx.count("parity_on_qubits_whose_ids_are_not_their_positions")
             conn.flush()
             p.set_state(qs, vec)
             n_meas0 = len(p.script.log)
@@ -485,6 +500,10 @@ def _parity(ctx, case):
             conn.flush()
             value = m if isinstance(m, int) else int(m)
             log = p.script.log[n_meas0:]
+            for e_ in extra:
+                e_.free()           # (the bystander, still |0>, is given back before the state of the list is read)
+            if extra:
+                conn.flush()
             got = p.state_of(qs)
             for q in qs:
                 q.measure()
